@@ -54,6 +54,10 @@ CLAIMED = {
    text="Panic freedom on bounded skeletons, decided by symbolic execution with z3 path feasibility: invoice, payment and envelope skeletons whose optional pointers are nil or not and whose currency codes range over {absent, defined, other, undefined} (by choice) with symbolic numbers are driven through bill.calculate, Payment.calculate, DocumentRef.Calculate, Envelope.Verify/Header.Contains and the c14n token layer; no feasible path may end in a Go run-time panic (nil dereference, index out of range, failed assertion, division by zero). Every panic found is replayed against the natively compiled code before it is reported.",
    note="Outside: arbitrary bytes through encoding/json / YAML, hangs, the CLI process, error keys and JSON serialisation of errors (reflection, I/O). Defects found and fixed: ececb16 (empty signature / nil header), 30b8846 (undefined currency), 1c33f8c (c14n empty input), 9131962.",
    ref="DESIGN.md 5 (C14)"),
+ "C01": dict(
+   text="Unit layer of the document calculation, bounded model checking with z3: from an arbitrary symbolic pre-state each step of the real code - calculateLine (price x quantity, percentage discount, percentage / rate-times-quantity charge), calculateDiscounts/Charges and their sums (with and without explicit base), advances, advance total and percentage due dates, foreign-currency item price conversion (exchange rate or alternative price) - yields exactly the half-away-from-zero rounding of the exact product / percentage at the documented working precision (>= currency+2 under 'precise', currency under 'currency'), fixed amounts are only raised, never rounded, before use, and line totals are sum - discounts + charges. The accounting identities of the whole pipeline are decided under the currency rule in C03, the fixpoint in C04.",
+   note="Assumes go/ssa faithful, z3 sound, C05 summaries (lemmas re-run first). Outside: comparison of the whole pipeline with a reference under 'precise' and the 'less than a full minor unit' bound; sub-line breakdowns; regime-default rule selection. Known finding (open): double rounding under the currency rule when the price has more decimals than the currency and the quantity has decimals.",
+   ref="DESIGN.md 5 (C01)"),
 }
 
 NA = {
